@@ -111,9 +111,36 @@ class Report:
         violations.append(('obligation ' + o.name, path,
                            '' if concrete is not None else
                            ' no-failing-input-found'))
+      from mmverif import baseline as _bl
+      proved_before = set(_bl.load().get(pid, []))
       for o, r in und:
         if known('obligation', o.name + ' ' + o.label):
           expected_fail += 1      # listed finding: expected not to be provable
+          continue
+        if _bl.key(o) in proved_before:
+          # discharged on the unchanged tree, not accepted now: the verifier
+          # rejects the obligation (no counter-model from the solver)
+          payload = {
+              'property': pid, 'failed_obligation': o.name, 'label': o.label,
+              'kind': o.kind, 'function': o.func, 'line': o.lineno,
+              'goal': o.text, 'solver': r['runs'],
+              'note': ('this obligation is discharged on the unchanged tree '
+                       '(baseline_obligations.json) and is not accepted by '
+                       'the verifier on this tree; the solver returned no '
+                       'counter-model'),
+              'source_root': common.REPO}
+          concrete = None
+          if hasattr(mod, 'replay'):
+            try:
+              concrete = mod.replay(o, {})
+            except Exception as e:  # pylint: disable=broad-except
+              payload['replay_error'] = repr(e)
+          if concrete is not None:
+            payload['failing_input'] = concrete
+          path = common.write_replay(pid, o.name, payload)
+          violations.append(('obligation ' + o.name, path,
+                             '' if concrete is not None else
+                             ' no-failing-input-found'))
           continue
         undecided.append(o.name)
       vac = [u.contract.qualname for u in pr.units if getattr(u, 'vacuous',
@@ -237,10 +264,24 @@ def run_property(mod, tier, seed):
   targets = mod.proof_targets(tier) if hasattr(mod, 'proof_targets') else []
   if targets:
     from mmverif import prove
+    from mmverif.engine import backend
+    tmo = 12000 if tier == 'quick' else 60000
     rep.proof = prove.prove(
-        targets, props={mod.ID},
-        timeout_ms=10000 if tier == 'quick' else 60000,
+        targets, props={mod.ID}, timeout_ms=tmo,
         use_cvc5='fallback' if tier == 'quick' else 'always')
+    # second chance with a longer budget for the few undecided ones, so that
+    # a loaded machine does not flip a verdict
+    und = [(o, r) for o, r in rep.proof.obligations
+           if r['verdict'] == 'undecided']
+    if 0 < len(und) <= 48:
+      out = backend.discharge([(o.name, o.smt2) for o, r in und],
+                              timeout_ms=tmo * 4, use_cvc5='no')
+      for i, (o, r) in enumerate(rep.proof.obligations):
+        if r['verdict'] == 'undecided' and o.name in out:
+          nr = out[o.name]
+          nr['runs'] = r['runs'] + nr['runs']
+          nr['verdict'] = backend.verdict(nr['runs'])
+          rep.proof.obligations[i] = (o, nr)
   if hasattr(mod, 'monitor'):
     rep.mon = mod.monitor(tier, seed)
   return rep
